@@ -1493,9 +1493,11 @@ std::string op_array(std::string const &_op, line_t const &L)
           T e{L.args[1].ids[0]};
           mark(e);
           g_log.clear();
-          // array::append names `fcppt::array::size<Array1>` with the reference: no instantiation with an lvalue first array
-          need(L.cat(0) == 'r');
-          auto const r{with_cat<T::copyable>(L.cat(1), e, [&](auto &&y) { return fcppt::array::push_back(std::move(t), FWD(y)); })};
+          auto const r{with_cat<T::copyable>(
+              L.cat(0),
+              t,
+              [&](auto &&x)
+              { return with_cat<T::copyable>(L.cat(1), e, [&](auto &&y) { return fcppt::array::push_back(FWD(x), FWD(y)); }); })};
           event_log const log{g_log};
           slots_t se;
           se.add(e);
@@ -1505,8 +1507,7 @@ std::string op_array(std::string const &_op, line_t const &L)
   if (_op == "arrjoin2" || _op == "arrjoin3")
   {
     bool const three{_op == "arrjoin3"};
-    // (first array: rvalue only, see arrpush)
-    need(L.args.size() == (three ? 3U : 2U) && L.par.empty() && L.cat(0) == 'r');
+    need(L.args.size() == (three ? 3U : 2U) && L.par.empty());
     return with_n<2>(
         L.n(0),
         [&](auto N1) -> std::string
@@ -1522,7 +1523,11 @@ std::string op_array(std::string const &_op, line_t const &L)
                 if (!three)
                 {
                   g_log.clear();
-                  auto const r{with_cat<T::copyable>(L.cat(1), b, [&](auto &&y) { return fcppt::array::join(std::move(a), FWD(y)); })};
+                  auto const r{with_cat<T::copyable>(
+                      L.cat(0),
+                      a,
+                      [&](auto &&x)
+                      { return with_cat<T::copyable>(L.cat(1), b, [&](auto &&y) { return fcppt::array::join(FWD(x), FWD(y)); }); })};
                   event_log const log{g_log};
                   return finish("-", arr_slots(r), {arr_slots(a), arr_slots(b)}, log);
                 }
@@ -1532,12 +1537,18 @@ std::string op_array(std::string const &_op, line_t const &L)
                 mark(c);
                 g_log.clear();
                 auto const r{with_cat<T::copyable>(
-                    L.cat(1),
-                    b,
-                    [&](auto &&y)
+                    L.cat(0),
+                    a,
+                    [&](auto &&x)
                     {
                       return with_cat<T::copyable>(
-                          L.cat(2), c, [&](auto &&z) { return fcppt::array::join(std::move(a), FWD(y), FWD(z)); });
+                          L.cat(1),
+                          b,
+                          [&](auto &&y)
+                          {
+                            return with_cat<T::copyable>(
+                                L.cat(2), c, [&](auto &&z) { return fcppt::array::join(FWD(x), FWD(y), FWD(z)); });
+                          });
                     })};
                 event_log const log{g_log};
                 return finish("-", arr_slots(r), {arr_slots(a), arr_slots(b), arr_slots(c)}, log);
@@ -2153,7 +2164,15 @@ std::string handle(std::vector<std::string> const &_t)
     }
     for (std::size_t i = 3 + n; i < _t.size(); ++i)
       L.par.push_back(std::stoi(_t[i]));
+#ifdef C05_NO_MOVE_ONLY
+    // diagnostic build (C05_NO_MOVE_ONLY=1 ./check.py C05): without the move-only twin, so that a change in /repo that stops the
+    // move-only instantiations from compiling can still be localised to concrete inputs with the copyable type
+    if (L.mo)
+      return "bad-op";
+    return dispatch<Tok>(_t[0], L);
+#else
     return L.mo ? dispatch<MTok>(_t[0], L) : dispatch<Tok>(_t[0], L);
+#endif
   }
   catch (bad_op const &)
   {
